@@ -18,7 +18,7 @@ RULE = (
     "class constant (A.B.c2), an attribute of another generated module (om.K); and in which such names are shadowed by the "
     "lambda's own parameter, by a nested lambda's parameter (depth <=3) or by a comprehension target while also existing as "
     "global/closure variable. Values: int/float/str(with quotes)/bool/bytes/complex (transportable) and list/dict/None/"
-    "object instance (not transportable). Histories after the call: rebinding the closure variable through a nonlocal "
+    "object instance/enum member held by the name (not transportable). Histories after the call: rebinding the closure variable through a nonlocal "
     "setter, rebinding/deleting the global, setting the class attribute and the other module's attribute, then value(). "
     "Non-trivial = >=1 capture and >=1 rebinding step, or >=1 shadowing binder whose name also exists outside. Distinct by module text + history."
 )
@@ -26,7 +26,7 @@ ASSUMPTIONS = [
     "The reference value is what the real lambda object returns on a sample element at the moment Select is called; the "
     "emitted lambda is evaluated by CPython with NO access to the module namespace (an un-frozen name is a NameError).",
     "A capture that is used (not shadowed) and holds a non-transportable value must make the call raise ValueError.",
-    "Enum members (documented to stay symbolic) and captured callables (C05) are not generated here.",
+    "Enum members written as Enum.MEMBER in the lambda (documented to stay symbolic) and captured callables (C05) are not generated here; an enum member HELD by a captured variable / class constant / module attribute is a value like any other, and not one a literal can represent (plain Enum, and IntEnum - an instance of a subclass of int): ValueError.",
 ]
 BUDGET = {"quick": (6, 1000), "thorough": (16, 6000)}
 
@@ -35,7 +35,7 @@ _T = st.one_of(
     st.sampled_from(["True", "False"]), st.sampled_from(["b'ab'", "2j"]),
 )
 _NUM = st.one_of(st.integers(-5, 50).map(repr), st.sampled_from(["0.5", "2.25"]))
-_NT = st.sampled_from(["[1, 2]", "{'k': 1}", "None", "Obj()", "(1, 2)", "{1, 2}"])
+_NT = st.sampled_from(["[1, 2]", "{'k': 1}", "None", "Obj()", "(1, 2)", "{1, 2}", "Col.RED", "Lvl.HIGH"])  # enum members HELD by a name (plain Enum; IntEnum: an int subclass no literal represents)
 
 REFS = {"v1": "{v1}", "v2": "v2", "G1": "G1", "Ac": "A.c", "Abc2": "A.B.c2", "K": "om.K"}
 
@@ -136,8 +136,14 @@ def module_text(case, om_name):
     v = case["vals"]
     body = "(" + ", ".join(case["items"]) + ("," if len(case["items"]) == 1 else "") + ")"
     return f'''import {om_name} as om
+import enum
 class Obj:
     pass
+class Lvl(enum.IntEnum):
+    LOW = 1
+    HIGH = 2
+class Col(enum.Enum):
+    RED = 1
 G1 = {v["G1"]}
 G2 = {v["G2"]}
 class A:
@@ -209,7 +215,7 @@ def check(case) -> Result:
             log.append(v0)
             return EventDataset.Select(self, f)
 
-    om = srcgen.load(f"K = {case['vals']['K']}\nclass Obj:\n    pass\n" if "Obj()" not in case["vals"]["K"] else f"class Obj:\n    pass\nK = {case['vals']['K']}\n", prefix="vfom")
+    om = srcgen.load("import enum\nclass Obj:\n    pass\nclass Lvl(enum.IntEnum):\n    LOW = 1\n    HIGH = 2\nclass Col(enum.Enum):\n    RED = 1\n" + f"K = {case['vals']['K']}\n", prefix="vfom")
     mod = None
     try:
         text = module_text(case, om.__name__)
@@ -266,7 +272,7 @@ def check(case) -> Result:
             return r.fail(err)
         for op, arg in case["history"]:
             try:
-                val = eval(arg, {"Obj": mod.Obj}) if arg else None
+                val = eval(arg, {"Obj": mod.Obj, "Lvl": mod.Lvl, "Col": mod.Col}) if arg else None
                 if op == "set_v1":
                     mod.OUT["set_v1"](val)
                 elif op == "set_G1":
